@@ -342,7 +342,8 @@ func positions(s *tbin.Shape) []position {
 		return tbin.Struct(tbin.F(1, tbin.Map(tbin.STRING, s.T, tbin.Str("k1"), w, tbin.Str("k2"), neighbour(s))))
 	}})
 	switch {
-	case s.T == tbin.STRING && !s.Binary, s.T == tbin.BYTE, s.T == tbin.I16, s.T == tbin.I32, s.T == tbin.I64:
+	case s.T == tbin.STRING, s.T == tbin.BYTE, s.T == tbin.I16, s.T == tbin.I32, s.T == tbin.I64:
+		// binary keys too: both directions take a key as its text (no base64 for keys), domain = valid UTF-8
 		ps = append(ps, position{"mapkey", jt.Plain(tbin.StructS(tbin.SF(1, tbin.MapS(s, tbin.Sc(tbin.I32))))), func(w *tbin.Val) *tbin.Val {
 			return tbin.Struct(tbin.F(1, tbin.Map(s.T, tbin.I32, w, tbin.I32v(7))))
 		}})
@@ -441,6 +442,9 @@ func enumScalar(tier string, s *tbin.Shape, yield func(core.Case) bool) {
 				}
 				if s.Binary && p.mask&2 != 0 && !utf8ok(w.S) {
 					continue // NoBase64Binary: the binary travels as a JSON string, domain = valid UTF-8
+				}
+				if s.Binary && pos.name == "mapkey" && !utf8ok(w.S) {
+					continue
 				}
 				tr := valClass(s, w) + "@" + pos.name
 				if !yield((&tscen{trigger: tr, prog: pos.prog, pair: p, val: root}).Case()) {
